@@ -290,6 +290,9 @@ pub const MAX_MSG_ABSOLUTE: usize = 8972;
 
 const MSG_HEADER_LEN: usize = 12;
 
+/// Max length of a domain name. See RFC 1035 section 2.3.4.
+const MAX_NAME_LEN: usize = 255;
+
 // Definitions for DNS message header "flags" field
 //
 // The "flags" field is 16-bit long, in this format:
@@ -2496,6 +2499,10 @@ impl DnsIncoming {
         let mut name = "".to_string();
         let mut at_end = false;
 
+        // Every compression pointer must point below the previous one (the first
+        // one: below the start of this name), otherwise pointers could form a loop.
+        let mut pointer_limit = start_offset;
+
         // From RFC1035:
         // "...Domain names in messages are expressed in terms of a sequence of labels.
         // Each label is represented as a one octet length field followed by that
@@ -2547,6 +2554,14 @@ impl DnsIncoming {
                         .map_err(|e| Error::Msg(format!("read_name: from_utf8: {e}")))?;
                     name += ".";
                     offset += length as usize;
+
+                    // RFC 1035 section 2.3.4: names are limited to 255 octets.
+                    if name.len() > MAX_NAME_LEN {
+                        return Err(e_fmt!(
+                            "read_name: name exceeds {} bytes",
+                            MAX_NAME_LEN
+                        ));
+                    }
                 }
                 0xC0 => {
                     // Message compression.
@@ -2559,13 +2574,14 @@ impl DnsIncoming {
                         )));
                     }
                     let pointer = (u16_from_be_slice(slice) ^ 0xC000) as usize;
-                    if pointer >= start_offset {
+                    if pointer >= pointer_limit {
                         // Error: could trigger an infinite loop.
                         return Err(Error::Msg(format!(
-                            "Invalid name compression: pointer {} must be less than the start offset {}",
-                            &pointer, &start_offset
+                            "Invalid name compression: pointer {} must be less than {}",
+                            &pointer, &pointer_limit
                         )));
                     }
+                    pointer_limit = pointer;
 
                     // A pointer marks the end of a domain name.
                     if !at_end {
